@@ -294,6 +294,34 @@ E('mpf', 'x', op='new:mpf', key='new_mpf', fam='A', tol=0, exact=True,
 E('mpf', 'x', op='new:mpf', key='new_mpf_dps', fam='A', tol=0, exact=True, kw={'dps': (0.7, 'i:1:80')})
 E('mpc', 'x x', op='new:mpc', key='new_mpc', fam='A', tol=0, exact=True)
 E('mpc', 'z', op='new:mpc', key='new_mpc_c', fam='A', tol=0, exact=True)
+# more construction / unary / multiplicative forms (operands that make a shortcut tempting: units, powers of two, pure imaginary)
+def _unit(r, c):
+    return r.choice([I(1), I(-1), I(2), I(4), {'t': 'float', 'v': (0.5).hex()}, {'t': 'float', 'v': (1.0).hex()},
+                     {'t': 'mpf', 'v': [0, '1', r.randint(-8, 8)]}, {'t': 'mpf', 'v': [1, '1', r.randint(-8, 8)]}])
+def _imag(r, c):
+    return r.choice([{'t': 'complex', 'v': [(0.0).hex(), (1.0).hex()]}, {'t': 'complex', 'v': [(0.0).hex(), (-1.0).hex()]},
+                     {'t': 'complex', 'v': [(0.0).hex(), (2.0).hex()]}, {'t': 'mpc', 'v': [[0, '0', 0], mpf_spec(r, -3, 3)['v']]},
+                     {'t': 'complex', 'v': [(1.0).hex(), (0.0).hex()]}])
+def _rawtuple(r, c):
+    w = r.choice(WIDTHS)
+    return {'t': 'tuple', 'v': [I(rand_man(r, w) * r.choice([1, -1])), I(r.randint(-w - 10, 10 - w))]}
+for _o in ['mul', 'truediv']:
+    E(_o, ['x', _unit], op='op:' + _o, key='op_' + _o + '_unit', fam='A', tol=0, exact=True)
+    E(_o, ['z', _unit], op='op:' + _o, key='op_' + _o + '_cunit', fam='A', tol=2)
+    E(_o, ['z', _imag], op='op:' + _o, key='op_' + _o + '_cimag', fam='A', tol=2)
+E('mul', [_unit, 'x'], op='op:mul', key='op_rmul_unit', fam='A', tol=0, exact=True)
+E('mul', [_imag, 'z'], op='op:mul', key='op_rmul_cimag', fam='A', tol=2)
+E('mul', [_unit, 'z'], op='op:mul', key='op_rmul_cunit', fam='A', tol=2)
+E('truediv', [_unit, 'x'], op='op:truediv', key='op_rdiv_unit', fam='A', tol=0, exact=True)
+E('pow', 'x c:0,1,2,-1', op='op:pow', key='op_pow_small', fam='A', tol=0, exact=True)
+E('pow', 'z c:0,1,2,-1', op='op:pow', key='op_pow_csmall', fam='A', tol=4)
+E('mpf', [_rawtuple], op='new:mpf', key='new_mpf_tuple', fam='A', tol=0, exact=True, kw={'prec': (0.3, 'i:1:300')})
+E('mpf', [lambda r, c: {'t': 'const', 'v': r.choice(['pi', 'e', 'ln2', 'euler', 'phi', 'catalan'])}], op='new:mpf', key='new_mpf_const',
+  fam='A', tol=0, exact=True, kw={'prec': (0.4, 'i:1:300'), 'rounding': (0.3, lambda r, c: {'t': 'str', 'v': r.choice('nfcdu')})})
+E('mpc', ['x', 'x'], op='new:mpc', key='new_mpc_kw', fam='A', tol=0, exact=True)
+E('ldexp', 'x k', key='ldexp2', fam='L', exact=True, c10=False)
+E('fmul', ['Z', _unit], key='fmul_unit', fam='L', tol=2, kw={'prec': (0.3, 'i:1:300')})
+E('fdiv', ['Z', _unit], key='fdiv_unit', fam='L', tol=2, kw={'prec': (0.3, 'i:1:300')})
 for _n in ['fadd', 'fsub', 'fmul', 'fdiv']:
     E(_n, 'Z Z', fam='L', tol=2,
       kw={'prec': (0.3, 'i:1:300'), 'dps': (0.15, 'i:1:60'),
